@@ -19,14 +19,14 @@ Section C13.
 
   Theorem resolve_trace_prefix :
     forall fuel r v (tr tr2 : list (event (VS := VS) (Vr := Vr))),
-      is_mismatch (fst (fst (resolve O veqb fuel r v tr))) = false ->
+      is_mismatch (fst (fst (fst (resolve O veqb fuel r v tr)))) = false ->
       resolve O veqb fuel r v (tr ++ tr2) = resolve O veqb fuel r v tr.
   Proof. exact (resolve_prefix O veqb). Qed.
 
   Theorem resolve_error_outcome_explained :
     (forall a b, vs_eqb O a b = true -> a = b) -> (forall a b, veqb a b = true -> a = b) ->
     forall fuel r v (tr : list (event (VS := VS) (Vr := Vr))),
-      match fst (fst (resolve O veqb fuel r v tr)) with
+      match fst (fst (fst (resolve O veqb fuel r v tr))) with
       | OErrCancel => In (EvCancel false) tr
       | OErrChoose => exists p s, In (EvChoose p s CErr) tr
       | OErrDeps p v => In (EvDeps p v DErr) tr
